@@ -214,14 +214,19 @@ func (k Keeper) ExecuteLimitOpenOrder(ctx sdk.Context, order types.PerpetualOrde
 		}
 	}
 
+	// release the escrow and open the position atomically: ExecuteOrders swallows the error, so a
+	// failed open must leave the collateral in the order's escrow (otherwise the order stays pending
+	// with an empty escrow and can neither be executed nor cancelled any more)
+	cachedCtx, write := ctx.CacheContext()
+
 	// send the collateral amount back to the owner
 	ownerAddress := sdk.MustAccAddressFromBech32(order.OwnerAddress)
-	err = k.bank.SendCoins(ctx, order.GetOrderAddress(), ownerAddress, sdk.NewCoins(order.Collateral))
+	err = k.bank.SendCoins(cachedCtx, order.GetOrderAddress(), ownerAddress, sdk.NewCoins(order.Collateral))
 	if err != nil {
 		return err
 	}
 
-	res, err := k.perpetual.Open(ctx, &perpetualtypes.MsgOpen{
+	res, err := k.perpetual.Open(cachedCtx, &perpetualtypes.MsgOpen{
 		Creator:         order.OwnerAddress,
 		Position:        perpetualtypes.Position(order.Position),
 		Leverage:        order.Leverage,
@@ -234,6 +239,7 @@ func (k Keeper) ExecuteLimitOpenOrder(ctx sdk.Context, order types.PerpetualOrde
 	if err != nil {
 		return err
 	}
+	write()
 
 	// Remove the order from the pending order list
 	k.RemovePendingPerpetualOrder(ctx, order.OrderId)
